@@ -569,6 +569,14 @@ func (tdsChan *Channel) sendPackets(ctx context.Context, onlyFull bool) error {
 		// packet was sent as soon as it was full and none carries the
 		// end of message status. Terminate the message with an empty
 		// packet - the server would wait for more data otherwise.
+		select {
+		case <-ctx.Done():
+			return fmt.Errorf("passed context is closed: %w", ctx.Err())
+		case <-tdsChan.tdsConn.ctx.Done():
+			return fmt.Errorf("connection context is closed: %w", tdsChan.tdsConn.ctx.Err())
+		default:
+		}
+
 		eom := NewPacket(PacketHeaderSize)
 		eom.Data = nil
 		if err := tdsChan.sendPacket(eom); err != nil {
